@@ -85,7 +85,7 @@ theorem applyPPs_mode_indep (p : Path) (pps : List FilePP) (i : Nat) (c : Conten
       simp only [applyPPs, hasSetMode]
       cases g c with
       | none => simp
-      | some c' => simpa using ih (i + 1) c' m₁ m₂
+      | some r => simpa using ih (i + 1) r.1 (editMode r.2 m₁) (editMode r.2 m₂)
 
 theorem applyPPs_err_none_iff (p : Path) (pps : List FilePP) (i : Nat) (f : File) :
     (applyPPs p pps i f).err = none ↔ (ppContent pps f.content).isSome = true := by
@@ -98,7 +98,7 @@ theorem applyPPs_err_none_iff (p : Path) (pps : List FilePP) (i : Nat) (f : File
       simp only [applyPPs, ppContent]
       cases h : g f.content with
       | none => simp
-      | some c' => simpa using ih (i + 1) { f with content := c' }
+      | some r => simpa using ih (i + 1) ⟨r.1, editMode r.2 f.mode⟩
 
 theorem applyPPs_content (p : Path) (pps : List FilePP) (i : Nat) (f : File)
     (h : (applyPPs p pps i f).err = none) :
@@ -112,27 +112,38 @@ theorem applyPPs_content (p : Path) (pps : List FilePP) (i : Nat) (f : File)
       simp only [applyPPs, ppContent] at h ⊢
       cases hg : g f.content with
       | none => simp [hg] at h
-      | some c' => simp only [hg] at h ⊢; simpa using ih (i + 1) { f with content := c' } h
+      | some r => simp only [hg] at h ⊢; simpa using ih (i + 1) ⟨r.1, editMode r.2 f.mode⟩ h
 
-theorem applyPPs_mode (p : Path) (pps : List FilePP) (i : Nat) (f : File)
-    (h : (applyPPs p pps i f).err = none) :
-    (applyPPs p pps i f).file.mode =
-      match lastSetMode pps with
-      | some m => permBits m
-      | none => f.mode := by
-  induction pps generalizing i f with
-  | nil => simp [applyPPs, lastSetMode]
+/-- A `SetFileMode` in last position decides the mode, whatever the programs before it did to it. -/
+theorem applyPPs_ends_setMode (p : Path) (pre : List FilePP) (m : Nat) (i : Nat) (f : File)
+    (h : (applyPPs p (pre ++ [.setMode m]) i f).err = none) :
+    (applyPPs p (pre ++ [.setMode m]) i f).file.mode = permBits m := by
+  induction pre generalizing i f with
+  | nil => simp [applyPPs]
   | cons pp rest ih =>
     cases pp with
-    | setMode m =>
-      simp only [applyPPs, lastSetMode] at h ⊢
-      rw [ih _ _ h]
-      cases lastSetMode rest <;> simp
+    | setMode m' =>
+      simp only [List.cons_append, applyPPs] at h ⊢
+      exact ih _ _ h
     | edit g =>
-      simp only [applyPPs, lastSetMode] at h ⊢
+      simp only [List.cons_append, applyPPs] at h ⊢
       cases hg : g f.content with
       | none => simp [hg] at h
-      | some c' => simp only [hg] at h ⊢; simpa using ih (i + 1) { f with content := c' } h
+      | some r => simp only [hg] at h ⊢; exact ih (i + 1) ⟨r.1, editMode r.2 f.mode⟩ h
+
+theorem requestedMode_eq_some {pps : List FilePP} {fm : Nat} (h : requestedMode pps = some fm) :
+    ∃ pre, pps = pre ++ [.setMode fm] := by
+  unfold requestedMode at h
+  cases hl : pps.getLast? with
+  | none => simp [hl] at h
+  | some pp =>
+    cases pp with
+    | edit g => simp [hl] at h
+    | setMode m =>
+      simp only [hl, Option.some.injEq] at h
+      subst h
+      obtain ⟨pre, hpre⟩ := List.getLast?_eq_some_iff.mp hl
+      exact ⟨pre, hpre⟩
 
 /-! ### one file -/
 
@@ -271,18 +282,17 @@ theorem afterFile_content (pps : List FilePP) (w : Write) (m : Mode) (h : afterE
     exact applyPPs_content _ _ _ _ e1
   · simp at h
 
-theorem afterFile_mode (pps : List FilePP) (w : Write) (m : Mode) (h : afterErr pps w = none) :
-    (afterFile pps w m).mode =
-      match lastSetMode pps with
-      | some fm => permBits fm
-      | none => startMode w m := by
+theorem afterFile_mode (pps : List FilePP) (w : Write) (m : Mode) (fm : Nat)
+    (hfm : requestedMode pps = some fm) (h : afterErr pps w = none) :
+    (afterFile pps w m).mode = permBits fm := by
+  obtain ⟨pre, rfl⟩ := requestedMode_eq_some hfm
   unfold afterErr at h; unfold afterFile
   split at h
   · rename_i hr
     simp only [hr, if_true]
-    have e1 : (applyPPs w.path pps 0 ⟨w.content, startMode w m⟩).err = none := by
-      rw [(applyPPs_mode_indep w.path pps 0 w.content (startMode w m) 0).1]; exact h
-    exact applyPPs_mode _ _ _ _ e1
+    have e1 : (applyPPs w.path (pre ++ [FilePP.setMode fm]) 0 ⟨w.content, startMode w m⟩).err = none := by
+      rw [(applyPPs_mode_indep w.path (pre ++ [FilePP.setMode fm]) 0 w.content (startMode w m) 0).1]; exact h
+    exact applyPPs_ends_setMode _ _ _ _ _ e1
   · simp at h
 
 /-! ### one run -/
@@ -403,8 +413,8 @@ theorem runWrites_allow_rel (env : Env) (pps : List FilePP) (ws : List Write) :
             by rw [writeFile_frame _ _ _ _ _ _ hqw]; exact h2, h3⟩
         · exact absurd hq hqw
 
-/-- On success every output carries the mode of the last `SetFileMode`. -/
-theorem runWrites_allow_mode (env : Env) (pps : List FilePP) (fm : Nat) (hfm : lastSetMode pps = some fm)
+/-- On success every output carries the mode of the `SetFileMode` in last position. -/
+theorem runWrites_allow_mode (env : Env) (pps : List FilePP) (fm : Nat) (hfm : requestedMode pps = some fm)
     (ws : List Write) :
     ∀ (fs : FS) (S : Path → Prop), (∀ p, S p → ∃ f, fs p = some f ∧ f.mode = permBits fm) →
       (runWrites env true pps ws fs).err = none →
@@ -436,7 +446,7 @@ theorem runWrites_allow_mode (env : Env) (pps : List FilePP) (fm : Nat) (hfm : l
       by_cases hqw : q = w.path
       · subst hqw
         refine ⟨_, writeFile_allow_at env pps w fs, ?_⟩
-        rw [afterFile_mode pps w _ hw, hfm]
+        exact afterFile_mode pps w _ fm hfm hw
       · rcases hq with hq | hq
         · obtain ⟨f, h1, h2⟩ := hS q hq
           exact ⟨f, by rw [writeFile_frame _ _ _ _ _ _ hqw]; exact h1, h2⟩
